@@ -27,6 +27,12 @@ Proof.
   eapply wp_weaken; [apply (IH s1 g H1)|auto|]. intros u s' (A & B & C & D & F). split; [exact A|]. repeat split; congruence.
 Qed.
 
+Lemma finsert_tree_eq s1 s2 g g' c : finsert s1 g g' c -> p_tree s2 = p_tree s1 -> finsert s2 g g' c.
+Proof.
+  intros F E par l1 tl Hk. destruct (F par l1 tl Hk) as (new & Hn & Hs). exists new. split; [exact Hn|].
+  unfold sibs, nfrow in *. rewrite E. exact Hs.
+Qed.
+
 Definition flagged (s : pstate) (x : N) : Prop :=
   exists o op fl af, tget (p_tree s) x = Some o /\ opInfo (o_infoIndex o) = Some (op, fl, af) /\
     hasFlag fl aml_pOpFlagDeferParsing = true.
@@ -58,7 +64,7 @@ Lemma block_spec parseFuel obj oo s g :
   wp True (block_body parseFuel obj oo) s (fun res s' => exists g',
     WI s' g' /\ gext g g' /\ r_len (p_r s') = r_len (p_r s) /\
     lp s' <= lp s + Cblock s /\ keep (eq obj) s g s' /\ (res = ROk -> TM NoX s' g') /\
-    (~ hasfl s obj -> forall y, glive g y -> y <> obj -> kids g' y = kids g y)).
+    Fk (eq obj) (fun y => hasfl s obj /\ In obj (kids g y)) g g' /\ finsert s' g g' obj).
 Proof.
   intros H I0 H0 Hl Hoo Hfl Hflp HTM Hcap. unfold block_body.
   pose proof (WI_FD _ _ H) as H1.
@@ -79,7 +85,7 @@ Proof.
                      mlet n <~ Parser.get (fun s => S (length (p_pkgEndStack s))) ;; popAll_go n ;;; ret ROk) s4
               (fun res s' => exists g', WI s' g' /\ gext g g' /\ r_len (p_r s') = r_len (p_r s) /\
                  lp s' <= lp s + Cblock s /\ keep (eq obj) s g s' /\ (res = ROk -> TM NoX s' g') /\
-                 (~ hasfl s obj -> forall y, glive g y -> y <> obj -> kids g' y = kids g y))).
+                 Fk (eq obj) (fun y => hasfl s obj /\ In obj (kids g y)) g g' /\ finsert s' g g' obj)).
   { intros s4 H4 I4 Et4 El4.
     assert (HTM4 : TM NoX s4 g) by (eapply TM_tree_eq; eauto).
     assert (Hoo4 : tget (p_tree s4) obj = Some oo) by (rewrite Et4; exact Hoo).
@@ -94,18 +100,17 @@ Proof.
       rewrite Hk in Hk'. inversion Hk'; subst b0 b1 r. assert (b1o = oo) by congruence. subst b1o.
       destruct (Hn1 _ _ _ Hrow) as (F & _). rewrite Hdf in F. discriminate.
     - auto.
-    - intros res s5 (g5 & H5 & X5 & F5 & _ & P5 & _ & Hok5) I5.
+    - intros res s5 (g5 & H5 & X5 & F5 & Hfi5 & P5 & _ & Hok5) I5.
       assert (Hlp5 : lp s5 <= lp s + Cblock s).
       { pose proof (fi_rok _ _ H4) as (_ & _ & O4). unfold Cblock. unfold Psi, rem, lp in *. rewrite Et4, El4 in *. lia. }
       assert (Hkeep5 : keep (eq obj) s g s5).
       { intros i o Hi Ho. rewrite <- Et4 in Ho. apply (fr_keep _ _ _ _ _ _ _ F5 i o Hi Ho). }
-      assert (Hfk5 : ~ hasfl s obj -> forall y, glive g y -> y <> obj -> kids g5 y = kids g y).
-      { intros Hn y Hy Hne. apply (fr_kids _ _ _ _ _ _ _ F5 y Hy).
-        - intros (F & _). apply Hn. unfold hasfl in *. rewrite <- Et4. exact F.
-        - intros F. apply Hne. symmetry. exact F. }
+      assert (Hfk5 : Fk (eq obj) (fun y => hasfl s obj /\ In obj (kids g y)) g g5).
+      { intros y Hy HE. apply (fr_kids _ _ _ _ _ _ _ F5 y Hy).
+        intros (F & Hin). apply HE. split; [|exact Hin]. unfold hasfl in *. rewrite <- Et4. exact F. }
       destruct (pres_eqb res ROk) eqn:Er; cbn [negb].
       2:{ apply wp_ret. exists g5. split; [apply FD_WI; exact H5|]. split; [apply (xd_g _ _ _ _ X5)|].
-          split; [rewrite (xd_len _ _ _ _ X5); exact El4|]. split; [exact Hlp5|]. split; [exact Hkeep5|]. split; [intros E; discriminate|exact Hfk5]. }
+          split; [rewrite (xd_len _ _ _ _ X5); exact El4|]. split; [exact Hlp5|]. split; [exact Hkeep5|]. split; [intros E; discriminate|]. split; [exact Hfk5|exact Hfi5]. }
       assert (res = ROk) by (destruct res; try discriminate; reflexivity). subst res.
       destruct (Hok5 eq_refl) as (_ & K2 & _).
       wbi tbls I5. apply wp_get. intros _.
@@ -115,7 +120,8 @@ Proof.
       split; [rewrite El6, (xd_len _ _ _ _ X5); exact El4|].
       split; [unfold lp in *; rewrite Et6; exact Hlp5|].
       split; [intros i o Hi Ho; rewrite Et6; apply (Hkeep5 i o Hi Ho)|].
-      split; [|exact Hfk5]. intros _. eapply TM_tree_eq; [exact K2|exact Et6]. }
+      split; [intros _; eapply TM_tree_eq; [exact K2|exact Et6]|]. split; [exact Hfk5|].
+      eapply finsert_tree_eq; [exact Hfi5|exact Et6]. }
   assert (Et3 : p_tree s3 = p_tree s) by reflexivity.
   assert (El3' : r_len (p_r s3) = r_len (p_r s)).
   { unfold s3. pcbn. rewrite El3. unfold s2. pcbn. pcbn_in El2. rewrite El2. reflexivity. }
@@ -147,7 +153,7 @@ Proof.
   assert (H : WI s g) by (constructor; auto).
   assert (W : wp True (parseDeferredBlocks (S fuel) parseFuel obj) s (fun res s' => exists g',
      WI s' g' /\ gext g g' /\ r_len (p_r s') = r_len (p_r s) /\ lp s' <= lp s + Cblock s /\ keep (eq obj) s g s' /\ (res = ROk -> TM NoX s' g') /\
-     (~ hasfl s obj -> forall y, glive g y -> y <> obj -> kids g' y = kids g y))).
+     Fk (eq obj) (fun y => hasfl s obj /\ In obj (kids g y)) g g' /\ finsert s' g g' obj)).
   { cbn [parseDeferredBlocks].
     apply wp_bind. apply wp_objectAt'; [apply (FI_ObjectAt _ _ _ H Hl)|].
     apply wp_bind. apply wp_rdo. exists oo. split; [exact Hoo|].
@@ -157,7 +163,7 @@ Proof.
     - exists oo, op, fl, af. auto.
     - intros (co & op' & fl' & af' & Hco & Hr' & Hf). apply Hflp. assert (co = oo) by congruence. subst. rewrite Hrow in Hr'. inversion Hr'; subst. exact Hf. }
   unfold wp in W. destruct (parseDeferredBlocks (S fuel) parseFuel obj s) as [[res s']| |]; auto.
-  destruct W as (g' & [A B C D E] & G & L & P & _ & T & _). exists g'. repeat (split; [assumption|]).
+  destruct W as (g' & [A B C D E] & G & L & P & _ & T & _ & _). exists g'. repeat (split; [assumption|]).
   split; [apply (ge_live _ _ G); exact H0|]. split; [unfold Cblock in P; lia|exact T].
 Qed.
 End Walk.
